@@ -280,7 +280,7 @@ func (e *Equation) Append(buf []byte, parens bool) []byte {
 			buf = append(buf, e.o.name...)
 			buf = append(buf, ' ')
 			if e.right != nil {
-				buf = e.right.Append(buf, e.left.o != nil && e.left.o.prec >= e.o.prec)
+				buf = e.right.Append(buf, e.right.o != nil && e.right.o.prec >= e.o.prec)
 			}
 		}
 	}
